@@ -35,6 +35,13 @@ def deep_twin(x, dtype=None):
     return type(x)(**kw)
 
 
+def small_enough_size(x):
+    n = 1
+    for ix in x.indices:
+        n *= ix.size_total
+    return n <= 4 * MAX_DENSE
+
+
 def small_enough(x):
     if not is_array(x):
         return True
@@ -114,7 +121,7 @@ class Program:
     def pick(self):
         """-> (name, [operands], f, info) or None. Operands are VALUES (from the pool or fresh)."""
         rng, sr = self.rng, self.sr
-        arrays = [v for v in self.pool if is_array(v) and v.blocks]
+        arrays = [v for v in self.pool if is_array(v) and v.blocks and v.ndim <= 8 and small_enough_size(v)]
         if not arrays or rng.random() < 0.08:
             name, th = self.construct()
             return f"construct:{name}", [], th, {"inplace": False, "dtype": "same-as-program", "construct": True}
@@ -267,7 +274,7 @@ class Program:
             ax = rng.sample(range(nd), rng.randint(1, nd))
             return name, [x], (lambda a: a.align_axes(a.conj(), (tuple(ax), tuple(ax)))), I()
         if name == "einsum_perm":
-            letters = "abcde"[:nd]
+            letters = "abcdefghijklmnop"[:nd]
             perm = rng.sample(range(nd), nd)
             eq = letters + "->" + "".join(letters[p] for p in perm)
             return name, [x], (lambda a: a.einsum(eq)), I()
